@@ -151,5 +151,11 @@ class Report:
 
 
 def die_machinery(msg):
+    try:
+        os.makedirs(WORK, exist_ok=True)
+        with open(os.path.join(WORK, "machinery.log"), "a", encoding="utf-8") as fh:
+            fh.write(time.strftime("%F %T ") + " ".join(sys.argv[1:]) + "\n" + str(msg)[-6000:] + "\n\n")
+    except OSError:
+        pass
     print("MACHINERY-ERROR:", msg, file=sys.stderr)
     sys.exit(2)
